@@ -11,16 +11,16 @@ Binding:  harness/drv_sess.c: a real server on the simulator, fabricated peers (
 import random, time, os
 import verif as V
 
-WRAPS = V.SIM_WRAPS + ['coap_malloc_type', 'coap_realloc_type', 'coap_free_type']
+WRAPS = V.SIM_WRAPS + ['coap_malloc_type', 'coap_realloc_type', 'coap_free_type', 'coap_socket_read', 'coap_socket_write']
 
 
 def gen(tier, rnd):
     cases = []
     cid = [0]
 
-    def case(ops, timeout=0, maxidle=0):
+    def case(ops, timeout=0, maxidle=0, tcp=0):
         cid[0] += 1
-        cases.append((cid[0], ['X id=%d timeout=%d maxidle=%d' % (cid[0], timeout, maxidle)] + list(ops) + ['E']))
+        cases.append((cid[0], ['X id=%d timeout=%d maxidle=%d tcp=%d' % (cid[0], timeout, maxidle, tcp)] + list(ops) + ['E']))
     thorough = tier == 'thorough'
     # 1. n distinct peers, then silence beyond the timeout; then the same peers again (new sessions)
     for n in (1, 2, 3, 7, 20, 50):
@@ -55,6 +55,52 @@ def gen(tier, rnd):
         case(['R 1 hold', 'I 10', 'R 2', 'I 10', 'R 3 hold', 'I 10', 'R 4', 'I 10', 'R 5', 'I 10', 'R 6', 'U 1', 'I 10', 'R 7', 'I 10', 'R 2', 'I 10', 'R 8',
               'I 10', 'U 3', 'R 9', 'R 10', 'R 11'], 300, mi)
         case(['O 1', 'I 10', 'R 2', 'I 10', 'A 3', 'I 10', 'R 4', 'I 10', 'R 5', 'I 10', 'a 3', 'I 10', 'R 6', 'R 7', 'K 1', 'R 8', 'R 9', 'o 1', 'R 10'], 300, mi)
+    # 3b. stream sessions (TCP): connect, requests, holders, the peer disconnects (state NONE), reclamation once nothing refers to the session
+    for to in (1, 10):
+        T = to * 1000
+        case(['T 0', 't 0 r', 'I 100', 'D 0', 'I 100', 'I %d' % (2 * T)], to, tcp=1)                       # closed and unreferenced: goes at once
+        case(['T 0', 't 0 r', 'I %d' % (T + 500), 'I 100', 'T 1', 't 1 r', 'I %d' % (3 * T)], to, tcp=1)   # idle beyond the timeout
+        case(['T 0', 't 0 a', 'I 50', 'D 0', 'I 100', 'I %d' % (2 * T), 'a 56', 'I 100', 'I %d' % T], to, tcp=1)      # parked request holds the closed session
+        case(['T 0', 't 0 r hold', 'D 0', 'I %d' % (2 * T), 'S 56', 'I 100', 'U 56', 'I 100', 'I %d' % T], to, tcp=1)  # application reference holds it
+        case(['T 0', 't 0 o', 'N', 'I 50', 'N', 'D 0', 'I 100', 'N', 'I %d' % (2 * T)], to, tcp=1)          # observer entry goes with the connection
+        case(['T 0', 'T 1', 'T 2', 't 0 r', 't 1 a', 't 2 o', 'R 1', 'O 2', 'A 3', 'D 1', 'D 2', 'I 100', 'N', 'a 57', 'a 3', 'I %d' % (2 * T), 'D 0', 'I 10'], to, tcp=1)
+        tbase = ['T 0', 't 0 a', 'T 1', 't 1 r hold', 'R 1 hold', 'D 0', 'I 200', 'D 1', 'I %d' % (T + 100), 'a 56', 'U 57', 'I 100', 'U 1', 'I %d' % (2 * T)]
+        for k in range(1, len(tbase) + 1):
+            case(tbase[:k] + ['F'], to, tcp=1)
+        case(tbase, to, 1, tcp=1)
+    for _ in range(600 if thorough else 60):
+        to = rnd.choice((1, 2, 10))
+        T = to * 1000
+        ops, conn, heldp = [], set(), set()
+        for _k in range(rnd.randint(4, 24)):
+            r = rnd.random()
+            k = rnd.randrange(3)
+            if r < 0.15 and k not in conn:
+                ops.append('T %d' % k); conn.add(k)
+            elif r < 0.40 and k in conn:
+                h = rnd.random() < 0.3 and (56 + k) not in heldp
+                ops.append('t %d %s%s' % (k, rnd.choice('rrao'), ' hold' if h else ''))
+                if h:
+                    heldp.add(56 + k)
+            elif r < 0.52 and conn:
+                q = rnd.choice(sorted(conn)); conn.discard(q)
+                ops.append('D %d' % q)
+            elif r < 0.60:
+                ops.append('a %d' % (56 + k))
+            elif r < 0.68 and heldp:
+                q = rnd.choice(sorted(heldp)); heldp.discard(q)
+                ops.append('U %d' % q)
+            elif r < 0.72 and heldp:
+                ops.append('S %d' % rnd.choice(sorted(heldp)))
+            elif r < 0.78:
+                ops.append('N')
+            elif r < 0.84:
+                ops.append('%s %d' % (rnd.choice('RCOA'), rnd.randint(1, 3)))
+            else:
+                ops.append('I %d' % rnd.choice((1, 10, 500, T - 1, T + 1, 2 * T)))
+        if rnd.random() < 0.4:
+            ops.append('F')
+        case(ops, to, rnd.choice((0, 0, 2)), tcp=1)
     # 4. random histories
     for _ in range(1500 if thorough else 120):
         to = rnd.choice((1, 2, 10, 0))
@@ -104,7 +150,7 @@ def run(pid, tier):
     rnd = random.Random(V.seed() * 7919 + 12)
     out = V.outdir(pid, tier)
     drv = V.link('drv_sess', ['drv_sess.c', 'simnet.c'], WRAPS)
-    mcst = V.mc('MC_Sessions', 'MC_Sessions.cfg', must_fire=['ARx', 'AHold', 'AUnhold', 'ATick', 'AReclaim'], workers=V.NCPU, timeout=1200, xmx='12g')
+    mcst = V.mc('MC_Sessions', 'MC_Sessions.cfg', must_fire=['ARx', 'AHold', 'AUnhold', 'ATick', 'AReclaim', 'ADisconnect'], workers=V.NCPU, timeout=1200, xmx='12g')
     if mcst['violated']:
         raise V.Infra('MC_Sessions violated (specification error):\n' + mcst['out'][-2500:])
     lv = V.mc('MC_Sessions', 'MC_Sessions_live.cfg', must_fire=['AReclaim'], workers=4, timeout=600)
